@@ -32,8 +32,8 @@ ASSUMPTIONS = ["upper-case ACGT sequences only", "gap-affine penalties mismatch 
 
 
 def plan(tier):
-    return {"cases": 640 if tier == "quick" else 2000, "shards": 16,
-            "shard_budget_s": 400 if tier == "quick" else 2400}
+    return {"cases": 640 if tier == "quick" else 8000, "shards": 16,
+            "shard_budget_s": 400 if tier == "quick" else 3300}
 
 
 def required(tier):
